@@ -33,8 +33,16 @@ def main():
         mod.run(chk)
         rc = chk.finish()
     except AnalysisBroken as e:
-        print('ANALYSIS-BROKEN property=%s: %s' % (pid, e))
-        return 2
+        if not chk.failures:
+            print('ANALYSIS-BROKEN property=%s: %s' % (pid, e))
+            return 2
+        # a rule has already named a violating construct; a later rule that lost its anchor does not take that back
+        print('ANALYSIS-INCOMPLETE property=%s: %s' % (pid, e))
+        try:
+            rc = chk.finish(partial=str(e))
+        except AnalysisBroken as e2:
+            print('ANALYSIS-BROKEN property=%s: %s' % (pid, e2))
+            return 2
     except Exception:
         traceback.print_exc()
         print('ANALYSIS-BROKEN property=%s: internal error' % pid)
